@@ -14,6 +14,7 @@ sorted array = number of elements `< x`, `np.diff(..) != 0` = adjacent states di
 = fold, `np.minimum` = `min`.  Imports only Lean core and Model/Pitch.lean (for `secToTick`).
 -/
 import PartituraModel.Model.Pitch
+import PartituraModel.Gen.C14Tables
 
 namespace Model.Pedal
 open Model
@@ -46,9 +47,13 @@ def validNote (n : Note) : Bool :=
 /-- a thresholded pedal event: (time, pedal down) -/
 abbrev Ev := Rat × Bool
 
+/-- the controller number of the sustain pedal — the constant of `x["number"] == 64`, REGENERATED from the live
+    source on every run (Gen/C14Tables.lean; `C14.sustain_cc_is_64` states its value) -/
+abbrev sustainCC : Int := Gen.C14.pedalNumber
+
 /-- `[(x["time"], x["value"] > threshold) for x in controls if x["number"] == 64]` -/
 def pedalEvents (cs : List Control) (thr : Int) : List Ev :=
-  (cs.filter (fun c => c.number = 64)).map (fun c => (c.time, decide (thr < c.value)))
+  (cs.filter (fun c => c.number = sustainCC)).map (fun c => (c.time, decide (thr < c.value)))
 
 /-- insertion step of a stable sort: `x` (earlier in the input) goes before equal keys -/
 def insertBy {α : Type} (key : α → Rat) (x : α) : List α → List α
@@ -184,7 +189,7 @@ def closing (ns : List Note) (evs : List Ev) : Option Rat :=
     threshold, or at which another note of the same pitch (any channel or track) is struck -/
 def Moment (ns : List Note) (cs : List Control) (thr : Int) (i : Nat) (n : Note) (t : Rat) : Prop :=
   n.off ≤ t ∧
-    ((∃ c, c ∈ cs ∧ c.number = 64 ∧ c.value ≤ thr ∧ c.time = t) ∨
+    ((∃ c, c ∈ cs ∧ c.number = sustainCC ∧ c.value ≤ thr ∧ c.time = t) ∨
      (∃ j m, ns[j]? = some m ∧ j ≠ i ∧ m.pitch = n.pitch ∧ m.on = t))
 
 /-- `sound_off` of note `i` after `adjust_offsets_w_sustain` -/
@@ -252,8 +257,8 @@ def noteOfRow (r : Row) : Note :=
   { pitch := r.pitch, on := r.onsetSec, off := r.onsetSec + r.durSec, vel := r.vel,
     track := r.track, chan := r.chan, onTick := none }
 
-/-- `PerformedPart.from_note_array(rows)` : notes without controls, default threshold 64 -/
-def fromRows (rows : List Row) : Option Part := buildPart (rows.map noteOfRow) [] 64
+/-- `PerformedPart.from_note_array(rows)` : notes without controls, the default threshold (regenerated) -/
+def fromRows (rows : List Row) : Option Part := buildPart (rows.map noteOfRow) [] Gen.C14.defaultThreshold
 
 -- ------------------------------------------------------------------ tracks
 
@@ -265,7 +270,8 @@ structure PartTracks where
   programs : List (Option Int)
 deriving Repr, DecidableEq
 
-def trackOr (t : Option Int) : Int := t.getD (-1)
+/-- `.get("track", -1)`: the number a missing `track` key is counted under (regenerated) -/
+def trackOr (t : Option Int) : Int := t.getD Gen.C14.missingTrack
 
 /-- the list the code turns into a set: notes of all parts, then controls, then programs, each as
     (part index, track) -/
